@@ -1,0 +1,13 @@
+//go:build verif
+
+package ast
+
+// Contracts for the govc verification-condition generator (see /verif/DESIGN.md, sections 1.2, 4.14).
+// This file is comment-only: it contains no declarations and changes no compiled code.
+
+// Shape invariants of trees the parser can produce: alternatives that the grammar makes exclusive.
+//@ func (InExpression).Children
+//@   requires i.Subquery == nil || len(i.List) == 0
+
+//@ func (ArrayConstructorExpression).Children
+//@   requires a.Subquery == nil || len(a.Elements) == 0
